@@ -1,6 +1,7 @@
 package main
 
 import (
+	"go/token"
 	"sort"
 	"fmt"
 	"go/types"
@@ -267,7 +268,7 @@ func propC20(w *World, r *Report) {
 						src = s
 					}
 				}
-				r.Check(src == "", "G2", "text handed to the limiter in "+fn.Name()+" does not embed a clock reading", w.InstrPos(call), src)
+				r.Check(src == "", "G2", "text handed to the limiter in "+fn.Name()+" does not embed a clock reading or per-frame telemetry", w.InstrPos(call), src)
 			}
 		}
 	}
@@ -410,6 +411,19 @@ func clockSourceOf(w *World, v ssa.Value, seen map[ssa.Value]bool, depth int) st
 		if al, ok := x.X.(*ssa.Alloc); ok {
 			return clockSourceOf(w, al, seen, depth+1)
 		}
+		// the camera's own clock and counters: telemetry of the frame at hand differs on every frame as well
+		if fa, ok := x.X.(*ssa.FieldAddr); ok && x.Op == token.MUL {
+			if st := structOf(fa.X.Type()); st != nil {
+				if typeIs(fa.X.Type(), "github.com/TheCacophonyProject/go-cptv/cptvframe", "Telemetry") {
+					return "per-frame telemetry " + st.Field(fa.Field).Name()
+				}
+			}
+		}
+	case *ssa.Field:
+		if typeIs(x.X.Type(), "github.com/TheCacophonyProject/go-cptv/cptvframe", "Telemetry") {
+			return "per-frame telemetry (field of a Telemetry value)"
+		}
+		return clockSourceOf(w, x.X, seen, depth+1)
 	case *ssa.Call:
 		callee := x.Call.StaticCallee()
 		name := calleeNameCI(x)
